@@ -3,9 +3,10 @@ CFG = dict(
               "C02.tumbling_late_update_contents", "C02.tumbling_late_update_only_if_allowed", "C02.future_never_moves_watermark",
               "C02.watermark_monotone", "C02.send_retry", "C02.facts_watermark", "C02.sliding_no_early_fire",
               "C02.session_no_early_delivery", "C02.session_drop_only_if_late", "C02.session_late_update", "C02.sliding_late_update_contents", "C02.sliding_every_open_window_redelivered",
-              "C02.tumbling_no_early_fire_full", "C02.tumbling_no_early_fire_prefix", "C02.sliding_no_early_fire_full", "C02.session_no_early_delivery_full"],
+              "C02.tumbling_no_early_fire_full", "C02.tumbling_no_early_fire_prefix", "C02.sliding_no_early_fire_full", "C02.session_no_early_delivery_full",
+              "C02.session_registered_kept", "C02.session_fired_registered", "C02.session_open_entry_redelivered"],
     unproved=[],
-    rule="tumbling (ALLOWEDLATENESS in {0,1,size/2,size,3size,20size}), sliding (lateness in {0,1,slide,3size}) and session (lateness in {0,1,timeout,5timeout}) op sequences with late rows placed around "
+    rule="tumbling (ALLOWEDLATENESS in {0,1,size/2,size,3size,20size}), sliding (lateness in {0,1,slide,3size}) and session (lateness in {0,1,timeout,5timeout,40timeout}; twin and ladder scenarios: several fired sessions of one key open for late rows at once) op sequences with late rows placed around "
          "MAXOUTOFORDERNESS and around window_end+ALLOWEDLATENESS, far-future and timestamp-less rows, lagging trigger (bursts of adds with undelivered watermarks), Adds in the unlock gap; distinct = distinct (cfg, op list)",
     assumptions=["'inside the allowance' is read per window: current watermark < window_end + ALLOWEDLATENESS (the literal 'older than watermark - ALLOWEDLATENESS' contradicts the re-delivery clause for rows early in a long window)",
                  "idle timeout: the model's tick carries the flag 'IDLETIMEOUT configured and elapsed' and the wall-clock reading; *_no_early_fire_full cover such ticks (the result is then backed by that reading minus MAXOUTOFORDERNESS); whether the flag is computed correctly from lastEventTime is tied by correspondence (idle ops of the harness) only",
